@@ -227,9 +227,17 @@ package workers
 //@ fnspec cancelFunc()
 //@   modifies nothing
 //@
+//@ // C04 (no lost wake-up, waiter side): a worker goes to sleep only after it has found no pending request while
+//@ // holding the condition's lock, so a tick (which installs and broadcasts under that lock) cannot fall between
+//@ // the check and the sleep.
+//@ ghost var G4sawEmpty bool
 //@ func (*TriggerPool).waitForNewJobs
-//@   props C02 C03 C05
+//@   props C02 C03 C05 C04
 //@   requires p.jobsAvailableCond != nil
+//@   ghost at entry : G4sawEmpty = false
+//@   ghost after call (*jobCounter).none : G4sawEmpty = ret0 && heldLocker(p.jobsAvailableCond.L)
+//@   assert before call (*Cond).Wait : {C04} [sleeps-only-after-finding-nothing-pending-under-the-lock] G4sawEmpty
+//@   ghost after call (*Cond).Wait : G4sawEmpty = false
 //@   modifies nothing
 //@
 //@ func (*TriggerPool).run
@@ -330,6 +338,9 @@ package workers
 //@            p.manager.activeScenario.progress.droppedIterationCount, NrecS, NrecF, NrecD, SumS, SumF, MinS, MinF, MaxS, MaxF
 //@   ensures [wf] wfTriggerPool(p)
 //@
+//@ // C04 (no lost wake-up, sender side): whenever a new count is installed the waiting workers are woken afterwards
+//@ ghost var G4installed bool
+//@ ghost var G4woken bool
 //@ // C02 (supersede): the requests still pending when a new count arrives are reported dropped at that moment, each
 //@ // exactly once, and the new count replaces them
 //@ func (*TriggerPool).sendJobsForExecution
@@ -337,6 +348,10 @@ package workers
 //@   requires wfTriggerPool(p)
 //@   assert before call (*jobCounter).set : [new-count-installed-under-the-condition-lock] heldLocker(p.jobsAvailableCond.L)
 //@   assert before call (*Cond).Broadcast : [workers-woken-under-the-condition-lock] heldLocker(p.jobsAvailableCond.L)
+//@   ghost at entry : G4installed = false ; G4woken = false
+//@   ghost after call (*jobCounter).set : G4installed = true ; G4woken = false
+//@   ghost after call (*Cond).Broadcast : G4woken = true
+//@   ensures {C04} [every-installed-count-is-followed-by-a-broadcast] G4installed ==> G4woken
 //@   modifies G2drops, p.jobsToExecute.num, GMiter, p.manager.activeScenario.progress.successfulIterationDurations.running, p.manager.activeScenario.progress.failedIterationDurations.running,
 //@            p.manager.activeScenario.progress.droppedIterationCount, NrecS, NrecF, NrecD, SumS, SumF, MinS, MinF, MaxS, MaxF
 //@   loop 0 invariant (numJobs <= 0 || !old(p.stopWorkers)) && wfTriggerPool(p) && 0 <= rangeiter && rangeiter < jobsDiscarded && p.manager == old(p.manager) && p.manager.activeScenario == old(p.manager.activeScenario) && p.manager.activeScenario.progress == old(p.manager.activeScenario.progress) && G2drops == old(G2drops) + rangeiter && NrecS == old(NrecS) && NrecF == old(NrecF) && p.jobsToExecute.num == numJobs
